@@ -204,7 +204,7 @@ class Gen(object):
         if lv["corrupt"] == "edge":
             edge |= {block + 1, maxp - 1, 254, 2 * block}
         if lv["corrupt"] == "few":
-            edge = {0, maxp, 254}
+            edge = {0, maxp}
         sweep_p = min(maxp, n % 7)
         step = lv.get("wfstep", 1)
         for p in range(maxp + 1):
@@ -288,7 +288,9 @@ def leaf_configs(tier):
             for alg in ("md5", "sha1", "sha256", "sha384"):
                 if ver == 0 and alg not in ("md5", "sha1"):
                     continue        # MAC_SSL is defined for MD5 and SHA-1 only
-                for block in ((8, 16) if (ver == 0 or (alg == "sha1" and ver == 3)) else (16,)):
+                if ver == 2 and alg in ("md5", "sha256", "sha384"):
+                    continue        # TLS 1.1 differs from 1.0/1.2 in nothing the function sees
+                for block in ((8, 16) if (ver == 0 and alg == "sha1") else (8,) if (ver, alg) == (2, "sha1") else (16,)):
                     lst.append((ver, alg, block))
     dsz = {"md5": 16, "sha1": 20, "sha256": 32, "sha384": 48}
     return [{"kind": "leaf", "ver": ver, "block": block, "dsize": dsz[alg], "alg": alg, "rank": 3,
@@ -328,19 +330,22 @@ def lengths_for(cfg, tier):
     elif cfg["kind"] == "toy":
         for n in range(0, 321):
             if rank == 0:
-                heavy = n <= 96 or n % 8 == 0 or n in edges
-                lv = {"sweep": "full", "corrupt": "allp" if n <= 64 else ("edge" if heavy else "few"),
-                      "datawin": 64, "padpos": "all" if heavy else "ends",
-                      "long": "heavy" if (n <= 96 or n % 16 == 0) else "light"}
+                heavy = n <= 96 or n % 16 == 0 or n in edges
+                primary = (cfg["ver"], cfg["block"]) in ((3, 16), (0, 16))
+                lv = {"sweep": "full" if (primary or n <= 128 or n % 4 == 0 or n in edges) else "reduced",
+                      "corrupt": "allp" if n <= 64 else ("edge" if heavy else ("few" if n % 2 == 0 else None)),
+                      "datawin": 64 if n <= 96 else 16, "padpos": "all" if heavy else "ends",
+                      "long": "heavy" if (n <= 64 or n % 32 == 0) else "light"}
             elif rank == 1:
-                heavy = n <= 64 or n % 16 == 0 or n in edges
-                lv = {"sweep": "full" if n % 4 == 0 else "reduced", "corrupt": "allp" if n <= 40 else ("edge" if heavy else "few"),
-                      "datawin": 32, "padpos": "all" if heavy else "ends", "long": "light",
-                      "wfstep": 1 if n <= 128 or n in edges else 8}
+                heavy = n <= 64 or n % 32 == 0 or n in edges
+                lv = {"sweep": "full" if n % 16 == 0 else "reduced",
+                      "corrupt": "allp" if n <= 32 else ("edge" if heavy else ("few" if n % 2 == 0 else None)),
+                      "datawin": 16, "padpos": "all" if heavy else "ends", "long": "light",
+                      "wfstep": 1 if n <= 96 or n in edges else 8}
             else:
-                lv = {"sweep": "reduced", "corrupt": "edge" if (n <= 64 or n in edges) else ("few" if n % 4 == 0 else None),
-                      "datawin": 16, "padpos": "all" if n <= 64 else "ends", "long": "light",
-                      "wfstep": 1 if n <= 96 else 16}
+                lv = {"sweep": "reduced", "corrupt": "edge" if (n <= 48 or n in edges) else ("few" if n % 4 == 0 else None),
+                      "datawin": 8, "padpos": "all" if n <= 48 else "ends", "long": "light",
+                      "wfstep": 1 if n <= 64 else 16}
             out.append((n, lv))
         for n in sorted(edges):
             if n > 320:
@@ -353,11 +358,11 @@ def lengths_for(cfg, tier):
             out.append((n, {"sweep": "reduced", "corrupt": "edge" if n < 100 else "few", "datawin": 8,
                             "padpos": "all" if n < 100 else "ends", "long": "light", "wfstep": 1 if n < 100 else 8}))
     else:
-        grid = set(range(0, 100)) | set(range(100, 330, 7)) | edges
+        grid = set(range(0, 100, 3)) | set(range(100, 330, 13)) | edges | {cfg["dsize"] + k for k in (0, 1, 2)}
         for n in sorted(grid):
-            out.append((n, {"sweep": "full" if n % 8 == 0 else "reduced",
-                            "corrupt": "allp" if n <= 40 else ("edge" if (n < 100 or n in edges) else "few"),
-                            "datawin": 32, "padpos": "all" if n < 100 else "ends", "long": "light",
+            out.append((n, {"sweep": "full" if n % 16 == 0 else "reduced",
+                            "corrupt": "allp" if n <= 24 else ("edge" if (n < 100 or n in edges) else "few"),
+                            "datawin": 16, "padpos": "all" if n < 100 else "ends", "long": "light",
                             "wfstep": 1 if n < 100 or n in edges else 8}))
     return out
 
@@ -601,10 +606,10 @@ def rec_job(job):
         plan(g, [], "wf" if conforming else "nonconforming-pad", conforming)
         # single-byte corruptions of the plaintext before encryption
         n = len(base)
-        if tier == "thorough" and not slow:
+        if tier == "thorough" and not slow and (clen in (0, 13) and ver in (0, 1, 3)):
             positions = list(range(1, n + 1))
         else:
-            k = 6 if slow else 10
+            k = 6 if slow else (10 if tier == "quick" else 30)
             pos = {1, 2, len(content), len(content) + 1, len(plain), len(plain) + 1, n - 1, n}
             pos |= {rnd.randrange(1, n + 1) for _ in range(k)}
             positions = sorted(x for x in pos if 1 <= x <= n)
